@@ -8,6 +8,12 @@ CHECKS = {
  "C01": dict(cat="exploration", tech="runtime monitoring: generated C++ executed (plain + ASan/UBSan) on reference-encoded inputs, output decoded by an independent reference codec; 64 KiB boundary sweep",
    text="Held on the executions explored: seeded corpus of generated packages x edge-heavy value sets, plus every encoder placed at every offset around the 64 KiB buffer boundary. Exploration, not proof: says nothing about type shapes or values the generators never produced.",
    note="Trusted: reference codec written from docs/reference/binary.md and self-tested on its worked examples; harness ndarray/date shims; g++ 12; HDF5/MATLAB not executable here.", ref="§5 C01"),
+ "C02": dict(cat="exploration", tech="runtime monitoring: generated C++ NDJSON writer/reader executed; lines compared type-directedly with an independent reference mapping; union matrix over JSON kinds",
+   text="Held on the executions explored: corpus models x JSON-representable values, both directions and return trips, plus every pair of JSON kinds in a two-case union. Exploration: unexplored shapes/values are not covered.",
+   note="Trusted: reference mapping written from docs/reference/ndjson.md (self-tested on its transcript); date shim; nlohmann/json 3.11.2 from the image.", ref="§5 C02"),
+ "C03": dict(cat="exploration", tech="runtime monitoring: generated C++ and generated Python executed back to back on the same streams (16 two-hop chains), reference decode of the final output; Python buffer-boundary sweep and I/O modes",
+   text="Held on the chains explored, except for the listed known finding (Python N-d arrays of compound elements). Exploration over seeded models/values; MATLAB is not an endpoint (no interpreter).",
+   note="Trusted: reference codec; CPython 3.11.7 + numpy 2.4.6 of the tooling venv (the only numpy available); shims for C++.", ref="§5 C03"),
 }
 NA_REASON = "check not built yet in this session (work in progress, see DESIGN.md §5 for the planned monitor)"
 
